@@ -1,12 +1,50 @@
 import Driver.Json
+import Driver.C01
+import Driver.C02
 import Driver.C03
+import Driver.C04
+import Driver.C05
+import Driver.C06
+import Driver.C07
+import Driver.C08
+import Driver.C09
+import Driver.C10
+import Driver.C11
+import Driver.C12
+import Driver.C13
+import Driver.C14
+import Driver.C15
+import Driver.C16
+import Driver.C17
+import Driver.C18
+import Driver.C19
+import Driver.C20
 /-! Line protocol: one JSON request `{"op": "<area>.<name>", ...}` per line, one JSON
 response per line. Unknown ops are rejected with `bad-op`, never defaulted. -/
 open Lean Drv
 
 def dispatch (op : String) (req : Json) : Except String Json :=
   match op.splitOn "." with
+  | "C01" :: rest => Drv.C01.handle (".".intercalate rest) req
+  | "C02" :: rest => Drv.C02.handle (".".intercalate rest) req
   | "C03" :: rest => Drv.C03.handle (".".intercalate rest) req
+  | "C04" :: rest => Drv.C04.handle (".".intercalate rest) req
+  | "C05" :: rest => Drv.C05.handle (".".intercalate rest) req
+  | "C06" :: rest => Drv.C06.handle (".".intercalate rest) req
+  | "C07" :: rest => Drv.C07.handle (".".intercalate rest) req
+  | "C08" :: rest => Drv.C08.handle (".".intercalate rest) req
+  | "C09" :: rest => Drv.C09.handle (".".intercalate rest) req
+  | "C10" :: rest => Drv.C10.handle (".".intercalate rest) req
+  | "C11" :: rest => Drv.C11.handle (".".intercalate rest) req
+  | "C12" :: rest => Drv.C12.handle (".".intercalate rest) req
+  | "C13" :: rest => Drv.C13.handle (".".intercalate rest) req
+  | "C14" :: rest => Drv.C14.handle (".".intercalate rest) req
+  | "C15" :: rest => Drv.C15.handle (".".intercalate rest) req
+  | "C16" :: rest => Drv.C16.handle (".".intercalate rest) req
+  | "C17" :: rest => Drv.C17.handle (".".intercalate rest) req
+  | "C18" :: rest => Drv.C18.handle (".".intercalate rest) req
+  | "C19" :: rest => Drv.C19.handle (".".intercalate rest) req
+  | "C20" :: rest => Drv.C20.handle (".".intercalate rest) req
   | _ => throw s!"bad-op {op}"
 
 def answer (line : String) : String :=
